@@ -66,12 +66,14 @@ Theorem sort_perm : forall H peers kd n l, sort_peers_by_key H peers kd n = Sort
 Proof. exact sort_perm_lemma. Qed.
 
 Theorem sort_prefix : forall H peers kd n l, sort_peers_by_key H peers kd n = SortOk l ->
+  l = firstn (N.to_nat n) (sort_by (key_peer_distance H kd) peers) /\
   N.of_nat (List.length l) = N.min n (N.of_nat (List.length peers)) /\
   forall full, sorted_by (key_peer_distance H kd) full ->
     (forall d, keyed (key_peer_distance H kd) d full = keyed (key_peer_distance H kd) d peers) ->
     l = firstn (N.to_nat n) full.
 Proof.
-  intros H peers kd n l E. split; [exact (sort_length_lemma H peers kd n l E)|exact (sort_prefix_lemma H peers kd n l E)].
+  intros H peers kd n l E. split; [exact (proj2 (sort_ok_inv H peers kd n l E))|].
+  split; [exact (sort_length_lemma H peers kd n l E)|exact (sort_prefix_lemma H peers kd n l E)].
 Qed.
 
 Theorem sort_returns_n_nearest : forall H peers kd n,
